@@ -1249,7 +1249,21 @@ func runC19(c *Ctx) {
 		}
 		// ---- several operations in one Refactor call ----
 		if base.Graph != nil {
-			for _, steps := range c19PlanMulti(c, cs, plan, func() string { freshN++; return fmt.Sprintf("ZZ_NEW%d", freshN) }) {
+			multis := c19PlanMulti(c, cs, plan, func() string { freshN++; return fmt.Sprintf("ZZ_NEW%d", freshN) })
+			// explicit multi-step edits of a corpus program: corpus/C19/<name>.edits.json, run first
+			if strings.HasPrefix(cs.Name, "corpus/") {
+				ef := filepath.Join(c.Corpus, strings.TrimSuffix(strings.TrimPrefix(cs.Name, "corpus/"), ".mro")+".edits.json")
+				if b, err := os.ReadFile(ef); err == nil {
+					var fixed [][]c19Edit
+					if err := json.Unmarshal(b, &fixed); err != nil {
+						r.note("cannot read %s: %v", ef, err)
+					} else {
+						multis = append(fixed, multis...)
+						r.hist("corpus:explicit-multi-step-edits")
+					}
+				}
+			}
+			for _, steps := range multis {
 				multi := c19MultiEdit(steps)
 				if tf := os.Getenv("C19_TRACE"); tf != "" {
 					os.WriteFile(tf, []byte(multi.String()+"\n"+cs.Src), 0o644)
